@@ -180,7 +180,14 @@ def main(argv: List[str]) -> int:
         violations.append({"kind": "proof", "what": failing, "log": tail})
 
     # 2-3. correspondence + direct oracle
-    rep = mod.run(tier, rng, proof_ok)
+    try:
+        rep = mod.run(tier, rng, proof_ok)
+    except Exception as e:  # the machinery itself broke on this tree: never pass silently
+        import traceback
+        rep = {"violations": [{"kind": "correspondence", "signature": None,
+                               "what": f"the correspondence machinery of {pid} could not run on this tree: {type(e).__name__}: {e}",
+                               "log": traceback.format_exc()[-2000:]}],
+               "coverage": {"evaluations": 0, "distinct_nontrivial": 0}}
     violations += rep.get("violations", [])
     known = load_known()
     known_here = [k for k in known.get("findings", []) if k["property"] == pid]
